@@ -223,3 +223,39 @@ def judge_generated(kc, res, sc, mod, prog):
             kc._record('generated-differs:%s:%s:%s:%d' % (prog, sc, r['zone'], s['year']),
                        'program %s, %s zone %s at epoch second %d: generated tables give %s, zic gives %s' % (prog, sc, r['zone'], t, got, exp),
                        differs, {'zone': r['zone'], 't': t, 'acetime': got, 'zic': exp})
+
+
+
+def mutate_source(text, rnd):
+    """A variant of a TZ source that stays inside the documented feature set: one field of one Rule/Zone line is
+    replaced by another admissible value (AT/UNTIL time and suffix, ON form, SAVE, STDOFF minutes, FROM/TO years)."""
+    lines = text.splitlines()
+    idx = [i for i, ln in enumerate(lines) if ln.startswith('Rule') or ln.startswith('Zone')]
+    for _ in range(50):
+        i = rnd.choice(idx)
+        f = lines[i].split('\t')
+        if f[0] == 'Rule' and len(f) >= 10:
+            k = rnd.choice(['at', 'on', 'save', 'from'])
+            if k == 'at':
+                f[7] = rnd.choice(['0:00', '1:00', '2:00', '3:00', '2:30', '23:00', '24:00', '1:45']) + rnd.choice(['', 's', 'u'])
+            elif k == 'on':
+                f[6] = rnd.choice(['lastSun', 'lastSat', 'Sun>=1', 'Sun>=8', 'Fri>=15', 'Sat>=23', 'Sun<=25', 'Mon<=14', '1', '15', '28'])
+            elif k == 'save':
+                if f[8] not in ('0', '0:00'):
+                    f[8] = rnd.choice(['1:00', '0:30', '2:00', '0:20', '1:30'])
+                else:
+                    continue
+            else:
+                y = rnd.randrange(2000, 2040)
+                f[2], f[3] = str(y), rnd.choice(['max', str(y + rnd.randrange(1, 9)), 'only'])
+        elif f[0] == 'Zone' and len(f) >= 5 and f[3] in ('-',):
+            hh = rnd.randrange(-11, 13)
+            mm = rnd.choice([0, 0, 30, 45, 7, 44, 20])
+            f[2] = ('%d:%02d' % (hh, mm)) if hh >= 0 else ('-%d:%02d' % (-hh, mm))
+            f[4] = ('%+03d%02d' % (hh, mm)) if mm else ('%+03d' % hh)
+        else:
+            continue
+        out = lines[:]
+        out[i] = '\t'.join(f)
+        return '\n'.join(out) + '\n', '%s -> %s' % (lines[i].replace('\t', ' '), out[i].replace('\t', ' '))
+    return text, 'unchanged'
